@@ -352,14 +352,16 @@ class LazyEvaluatedKernelTensor(LinearOperator):
         with settings.lazily_evaluate_kernels(False):
             temp_active_dims = self.kernel.active_dims
             self.kernel.active_dims = None
-            res = self.kernel(
-                x1,
-                x2,
-                diag=False,
-                last_dim_is_batch=self.last_dim_is_batch,
-                **self.params,
-            )
-            self.kernel.active_dims = temp_active_dims
+            try:
+                res = self.kernel(
+                    x1,
+                    x2,
+                    diag=False,
+                    last_dim_is_batch=self.last_dim_is_batch,
+                    **self.params,
+                )
+            finally:
+                self.kernel.active_dims = temp_active_dims
 
         # Check the size of the output
         if settings.debug.on():
